@@ -47,6 +47,9 @@ func (x *fx) paramEnv(mem *memNode) *specEnv {
 				return x.vals[p]
 			}
 		}
+		if v, ok := x.ghosts[name]; ok {
+			return v
+		}
 		return nil
 	}
 	env.old = env
@@ -127,6 +130,14 @@ func (x *fx) execute(loopWrites map[int]*loopInfo) {
 			}
 		}
 	}
+	// ghost parameters: universally quantified specification-only values
+	for _, gp := range x.c.Ghosts {
+		t := x.parseTypeString(gp.Type, fn.Pkg.Pkg)
+		n := "|ghost." + gp.Name + "|"
+		x.declare(n, x.sortOf(t))
+		x.assume(x.valid(n, t, x.top0))
+		x.ghosts[gp.Name] = &Val{T: t, S: n}
+	}
 	// fnspecs
 	for pname, spec := range x.c.FnSpecs {
 		x.assumeFnSpec(pname, spec)
@@ -142,7 +153,7 @@ func (x *fx) execute(loopWrites map[int]*loopInfo) {
 		x.regions = append(x.regions, x.regionsOf(cl.E, env0)...)
 	}
 	// vacuity: the precondition must be satisfiable
-	x.obs = append(x.obs, &Oblig{Fn: x.c.Pkg + "." + x.c.Name, Name: x.pkgShort() + "." + x.c.Name + "#vacuity:requires", Kind: "canary", PC: "true", Goal: "false", NSteps: len(x.steps), Expect: "sat", Desc: "requires is satisfiable", fx: x})
+	x.obs = append(x.obs, &Oblig{Fn: x.c.Pkg + "." + x.c.Name, Name: x.pkgShort() + "." + x.cname() + "#vacuity:requires", Kind: "canary", PC: "true", Goal: "false", NSteps: len(x.steps), Expect: "sat", Desc: "requires is satisfiable", fx: x})
 
 	order := x.topoOrder()
 	edgePC := map[[2]int]string{}
@@ -1092,12 +1103,12 @@ func (x *fx) ret(i *ssa.Return) {
 	env.old = x.paramEnv(x.entryMem)
 	// vacuity canary: this return must be reachable (placed before the
 	// postconditions, which are assumed once checked)
-	x.obs = append(x.obs, &Oblig{Fn: x.c.Pkg + "." + x.c.Name, Name: fmt.Sprintf("%s.%s#vacuity:ret%d", x.pkgShort(), x.c.Name, x.retCount), Kind: "canary", PC: x.curPC, Goal: "false", NSteps: len(x.steps), Expect: "sat", Desc: "return is reachable under the contract", fx: x})
+	x.obs = append(x.obs, &Oblig{Fn: x.c.Pkg + "." + x.c.Name, Name: fmt.Sprintf("%s.%s#vacuity:ret%d", x.pkgShort(), x.cname(), x.retCount), Kind: "canary", PC: x.curPC, Goal: "false", NSteps: len(x.steps), Expect: "sat", Desc: "return is reachable under the contract", fx: x})
 	for k, cl := range x.c.Ensures {
 		g := x.evalBool(cl.E, env)
 		if o := x.oblige("post", clauseLabel(cl, k), g, "postcondition: "+cl.Src); o != nil {
 			o.Src, o.Line = cl.Src, cl.Line
-			o.Name = fmt.Sprintf("%s.%s#post:%s@ret%d", x.pkgShort(), x.c.Name, clauseLabel(cl, k), x.retCount)
+			o.Name = fmt.Sprintf("%s.%s#post:%s@ret%d", x.pkgShort(), x.cname(), clauseLabel(cl, k), x.retCount)
 		}
 	}
 }
